@@ -690,3 +690,30 @@ def explicit_falsy(ctx):
     """A parameter of wallets.py that gets its default through a truthiness test (`p = p or d`, `if not p: p = d`) is never passed an explicit falsy constant (0, False, '') by a caller inside the package: account 0, change 0, cosigner 0 and index 0 are values, not "absent"."""
     from .common_falsy import falsy_defaults as run
     run(ctx, ['wallets'], 'account / cosigner / index 0 given on purpose is replaced by the wallet default: the key is looked up or created at another path')
+
+
+@PROP.obligation('C09.structure-lookups', canaries=[
+    mut.replace_expr('wallets', 'Wallet.new_keys', 'get_key_structure_data(witness_type, self.multisig)', 'get_key_structure_data(witness_type)', 'next-index query of a multisig wallet uses the single-signature purpose'),
+    mut.replace_expr('wallets', 'Wallet.keys_for_path', 'get_key_structure_data(witness_type, self.multisig)', 'get_key_structure_data(witness_type)', 'mixed-witness keys of a multisig wallet created under the single-signature purpose'),
+])
+def structure_lookups(ctx):
+    """The row of WALLET_KEY_STRUCTURES (purpose, path template, encoding) is selected by (witness type, multisig): every call of
+    get_key_structure_data inside wallets.py and keys.py passes the multisig flag of the wallet / key it works for as second argument.
+    Without it a multisig wallet looks its keys up under purpose 44 / 49 / 84 while they are stored under 45 / 48: the previous key of the
+    chain is never found and index 0 is issued again."""
+    n = 0
+    for mn in ('wallets', 'keys'):
+        m = ctx.repo.mod(mn)
+        for q, f in sorted(m.functions.items()):
+            for c in ast.walk(f):
+                if not (isinstance(c, ast.Call) and norm(c.func) == 'get_key_structure_data'):
+                    continue
+                n += 1
+                second = c.args[1] if len(c.args) > 1 else next((k.value for k in c.keywords if k.arg == 'multisig'), None)
+                ctx.saw('%s:%s: %s' % (mn, q, norm(c)[:80]))
+                if second is None:
+                    ctx.violate('%s:%s' % (mn, q), '`%s` selects the key structure without the multisig flag (default False)' % norm(c)[:80], c,
+                                'on a multisig wallet every further new_key() of a second witness type returns the first key of that chain again')
+                elif 'multisig' not in norm(second):
+                    ctx.unsure('%s:%s: structure selected with `%s` as multisig flag' % (mn, q, norm(second)))
+    ctx.floor(n, 6, 'structure lookups')
